@@ -85,14 +85,18 @@ def sview_ints(mol):
 
 
 def real_chiral_morgan(mol):
-    labelled = any(a._stereo is not None for a in mol._atoms.values()) or \
-        any(b._stereo is not None for _, _, b in mol.bonds())
-    if labelled:
-        return 'notmodelled'
     try:
         return ' '.join(['ok'] + [f'{n} {i}' for n, i in mol._chiral_morgan.items()])
     except Exception as e:  # noqa
         return _err(e)
+
+
+def stereo_kind(mol):
+    if any(b._stereo is not None for _, _, b in mol.bonds()):
+        return 'bond-label'
+    if any(a._stereo is not None for a in mol._atoms.values()):
+        return 'atom-label'
+    return 'label-free'
 
 
 def _err(e):
@@ -135,6 +139,7 @@ def molecules(ctx):
     """(name, mol) stream for the K streams."""
     rng = ctx.rng
     out = list(molgen.handmade())
+    out += [(t, molgen.parse(t)) for t in SYMMETRIC + STEREO_PAIRS if molgen.parse(t) is not None]
     out += molgen.corpus(rng, 300 if ctx.quick else 1500)
     n_small = 5 if ctx.quick else 6
     graphs = [g for k in range(2, n_small + 1) for g in molgen.unlabeled_small_graphs(k)]
@@ -153,6 +158,25 @@ def molecules(ctx):
     if not ctx.quick:
         out += molgen.test_files()
     return out
+
+
+def forced_labels(rng, mol):
+    """labels written directly into `_stereo` on the members of one atoms_order class (also on atoms that are not
+    stereogenic): reaches the KeyError branch of __differentiation and R/S pairs the parser would never produce."""
+    c = mol.copy()
+    classes = {}
+    for n, r in c.atoms_order.items():
+        if c._atoms[n].atomic_number == 6:
+            classes.setdefault(r, []).append(n)
+    cands = [v for v in classes.values() if len(v) >= 2]
+    if not cands:
+        return None
+    grp = rng.choice(cands)
+    k = rng.choice([2, 2, len(grp)])
+    for n in rng.sample(grp, min(k, len(grp))):
+        c._atoms[n]._stereo = rng.random() < 0.5
+    c.flush_cache()
+    return c
 
 
 def random_morgan_case(rng):
@@ -222,6 +246,13 @@ def k_streams(ctx):
             except Exception:  # noqa
                 continue
             variants.append((f'{name}~{r}', c))
+        if stereo_kind(mol) == 'label-free' and len(mol) <= 30 and rng.random() < 0.35:
+            try:
+                f = forced_labels(rng, mol)
+            except Exception:  # noqa
+                f = None
+            if f is not None:
+                variants.append((f'{name}+forced-labels', f))
         for vname, m in variants:
             xs = view_ints(m)
             line = 'order ' + ' '.join(map(str, xs))
@@ -229,8 +260,10 @@ def k_streams(ctx):
             ctx.dist('order:atoms<=%d' % (10 * ((len(m) + 9) // 10)))
             line = 'cmorgan ' + ' '.join(map(str, sview_ints(m)))
             exp = real_chiral_morgan(m)
-            add('cmorgan', line, exp, line, len(m) >= 2 and exp != 'notmodelled', vname)
-            ctx.dist('cmorgan:' + ('stereo-labelled (outside the model)' if exp == 'notmodelled' else 'label-free'))
+            kind = stereo_kind(m)
+            if kind == 'atom-label' and exp.startswith('ok') and exp != real_order(m):
+                kind = 'atom-label+classes-split-by-configuration'
+            add('cmorgan', line, exp, line, len(m) >= 2, (vname, kind))
         # the stored `in_ring` label that Element.__hash__ reads is the structural fact "lies on a cycle" (independent oracle)
         ring_atoms = set().union(*[comp for comp, _ in ring_systems({n: dict.fromkeys(ms) for n, ms in mol._bonds.items()})] or [set()])
         wrong = [n for n, a in mol._atoms.items() if bool(a.in_ring) != (n in ring_atoms)]
@@ -285,6 +318,15 @@ def k_streams(ctx):
         return
     bad = {}
     for line, exp, g, (op, key, nontrivial, what) in zip(reqs, expected, got, meta):
+        if op == 'cmorgan':
+            what, kind = what
+            if not exp.startswith('ok'):
+                kind += ':' + exp.replace(' ', '-')
+            if g == 'notmodelled':   # labelled double bond / allene / ring-group branch: outside the Lean model
+                ctx.count((op, key), False)
+                ctx.dist(f'cmorgan:{kind}:outside-the-model')
+                continue
+            ctx.dist(f'cmorgan:{kind}:compared')
         ctx.count((op, key), nontrivial)
         if op == 'order':
             ctx.sample({'request': line[:160], 'model': g[:120], 'implementation': exp[:120]}, limit=3)
@@ -718,6 +760,16 @@ SYMMETRIC = [
     'O[C@H](C(=O)O)[C@@H](O)C(=O)O', 'F/C=C/F', 'F/C=C\\F', 'C[C@@H]1CCC[C@H](C)C1=O',
 ]
 
+# molecules with several equivalent labelled centres (meso / C2 pairs): exercise the R/S pair branch of __differentiation
+STEREO_PAIRS = [
+    'C[C@H](O)[C@@H](C)O', 'C[C@H](O)[C@H](C)O', 'C[C@@H](O)[C@@H](C)O', 'O[C@H](C(=O)O)[C@@H](O)C(=O)O',
+    'O[C@H](C(=O)O)[C@H](O)C(=O)O', 'C[C@H](Cl)C[C@@H](C)Cl', 'C[C@H](Cl)C[C@H](C)Cl', 'C[C@H](N)CC[C@@H](C)N',
+    'F[C@H](Cl)[C@@H](F)Cl', 'F[C@H](Cl)[C@H](F)Cl', 'C[C@H](O)C(=O)[C@@H](C)O', 'C[C@H](O)C(=O)[C@H](C)O',
+    'C[C@H](Br)c1ccc(cc1)[C@@H](C)Br', 'C[C@H](Br)c1ccc(cc1)[C@H](C)Br', 'OC[C@H](O)[C@@H](O)[C@H](O)[C@@H](O)CO',
+    'OC[C@@H](O)[C@@H](O)[C@H](O)[C@H](O)CO', 'C[C@H](O)[C@H](O)[C@@H](C)O', 'N[C@@H](C)C(=O)N[C@@H](C)C(=O)O',
+    'C[C@H](F)[C@@H](F)[C@H](C)F', 'CC[C@H](C)O[C@@H](C)CC', 'CC[C@H](C)O[C@H](C)CC',
+]
+
 KF_COMPONENT = 'C01/canonical-string-depends-on-numbering/order-of-components-the-refinement-cannot-tell-apart'
 KF_TIE = 'C01/canonical-string-depends-on-numbering/tie-between-same-class-atoms-not-exchangeable-by-symmetry'
 
@@ -876,7 +928,7 @@ def relational_molecules(ctx):
     from chython import smiles
     rng = ctx.rng
     out = []
-    for s in molgen.HANDMADE + SYMMETRIC:
+    for s in molgen.HANDMADE + SYMMETRIC + STEREO_PAIRS:
         m = molgen.parse(s)
         if m is not None:
             out.append((s, s, m))
